@@ -7,7 +7,8 @@ accepted or refused), shut the pool down} on a real Session whose pool for the h
 `HostConnection` (protocol v4) or a `HostConnectionPool` (protocol v2, core 1 / max 2).
 Engine S: the races the histories cannot contain (a handler is atomic there): replacement / pool
 growth against shutdown, borrow against return against shutdown, two borrows against each other at
-the capacity boundary, a borrow against a (refused, retried) replacement, with a scheduling point at
+the capacity boundary, a borrow against a (refused, retried) replacement, the v2 pool's return that
+sets a connection aside against shutdown / a borrow / another return, with a scheduling point at
 every source line of the pool class.
 """
 from vt import explore, sched
@@ -33,9 +34,13 @@ META = {
             'task remains.  Engine S: 2-3 virtual threads (client(s), reactor, executor worker, pool.shutdown()) with a scheduling point '
             'at every line of every method of the pool class and at every lock/condition/event; all schedules within the preemption '
             'bound; includes, for both pool classes, two clients borrowing at once when one slot is left / when the connection is full '
-            'and the reactor frees a slot, and a client borrowing while the replacement task runs, is refused and retried; a pool that no '
-            'thread shut down is shut down after the threads ended; same oracle at every point / at the end, plus deadlock and livelock '
-            'detection.',
+            'and the reactor frees a slot, and a client borrowing while the replacement task runs, is refused and retried; for the v2 pool '
+            '(thresholds 1/2, two connections) the return that sets a connection aside while another request is pending on it, against '
+            'shutdown(), against a borrow and against that other request being given up on a timer thread, with what is left outstanding '
+            'ending by client timeout (late answers afterwards) or by its answer; a pool that no '
+            'thread shut down is shut down after the threads ended; same oracle at every point / at the end (every connection the pool '
+            'ever held -- current, set aside, or on its way from the one set to the other -- is closed once its requests have ended), plus '
+            'deadlock and livelock detection.',
     'note': 'Virtual server, clock, executor and connections as in DESIGN.md section 2 (VConnection implements push/close/create_timer '
             'only).  Client timeouts may expire in any order.  A polling loop that only real time would end is ended by a clock that '
             'advances after 3000 readings in one event.  _MIN_TRASH_INTERVAL is set to 0 for the v2 pool.',
@@ -77,6 +82,8 @@ def e_configs(ctx):
 def s_configs(ctx):
     hc = dict(prop='C12', clauses=CLAUSES, proto=4, max_in_flight=4, orphaned_threshold=2)
     leg = dict(prop='C12', clauses=CLAUSES, proto=2, max_in_flight=2, trash_interval=0, convict=False)
+    leg2 = dict(leg, min_reqs=1, max_reqs=2, max_in_flight=3)
+    TWO_CONNS = [('req',), ('req',), ('task', 0, 'ok'), ('req',)]
     b = 2 if ctx.thorough else 1
     return [
         # a replacement task is queued, one live request is on the overloaded connection
@@ -104,6 +111,16 @@ def s_configs(ctx):
         ('v2-trash-return-vs-shutdown', dict(leg, min_reqs=1, max_reqs=2, max_in_flight=3,
                                              stage=[('req',), ('req',), ('task', 0, 'ok'), ('req',), ('resp', 0)],
                                              threads=['reactor', 'shutdown']), b + 1 if ctx.thorough else b),
+        # v2 (thresholds 1/2; connection #1 carries q0 and q1, connection #2 carries q2): the answer to q0 makes the pool set
+        # connection #1 aside while q1 is still pending on it -- against shutdown(), against a borrow, against q1 being given up
+        # on a timer thread; what is still outstanding afterwards ends by client timeout (late answers last) or by its answer
+        ('v2-trashing-return-vs-shutdown', dict(leg2, stage=TWO_CONNS, threads=['reactor', 'shutdown'], answer_tags=[0],
+                                                drain='timeout'), b),
+        ('v2-trashing-return-vs-shutdown-answers', dict(leg2, stage=TWO_CONNS, threads=['reactor', 'shutdown'], answer_tags=[0]), b),
+        ('v2-trashing-return-vs-borrow', dict(leg2, stage=TWO_CONNS, threads=['reactor', 'client'], answer_tags=[0],
+                                              shutdown_at_end=True, drain='timeout'), b),
+        ('v2-trashing-return-vs-timeout', dict(leg2, stage=TWO_CONNS, threads=['reactor', 'timer'], answer_tags=[0], timer_tags=[1],
+                                               shutdown_at_end=True, drain='timeout'), b),
     ]
 
 
